@@ -475,7 +475,9 @@ Definition calc_segments (c : cfg) (tbl : list wfdata) (p : parsed) (advanced : 
 Definition fab_fuel : nat := 4000.
 Definition prep_fuel : nat := 4000.
 
-Definition compile (c : cfg) (tbl : list wfdata) (prog : loop) : result out :=
+(* ff / pf: fuel of the two restructuring loops (a model artefact; Proofs_term.v: both loops terminate, and with
+   enough fuel the result does not depend on the fuel) *)
+Definition compile_with (ff pf : nat) (c : cfg) (tbl : list wfdata) (prog : loop) : result out :=
   if negb (c_nchan c =? c_cpp c) then Err EChannels
   else if negb (c_nmark c =? c_cpp c) then Err EChannels
   else
@@ -493,10 +495,12 @@ Definition compile (c : cfg) (tbl : list wfdata) (prog : loop) : result out :=
       if negb (depth prog1 >? 1) then Err EAssert
       else if negb (l_rep prog1 =? 1) then Err EAssert
       else
-        do ch1 <- fab fab_fuel 2 [] (l_ch prog1);
-        do ch2 <- prep prep_fuel (c_min c) (c_max c) [] ch1;
+        do ch1 <- fab ff 2 [] (l_ch prog1);
+        do ch2 <- prep pf (c_min c) (c_max c) [] ch1;
         if negb (forallb (fun t => (l_len t >=? c_min c) && (l_len t <=? c_max c)) ch2) then Err EAssert
         else do p <- parse_aseq tbl (set_ch prog1 ch2); calc_segments c tbl p true.
+
+Definition compile : cfg -> list wfdata -> loop -> result out := compile_with fab_fuel prep_fuel.
 
 (* ------------------------------------------------------------------------------------------------------------- *)
 (* The table player (independent of the compiler): what the instrument does with the uploaded data                 *)
